@@ -240,11 +240,72 @@ static void x_apply(int ev) {
 }
 static void x_root(void) { memset(&M10, 0, sizeof M10); }
 
+/* ------------------------------------------------------------------ C10 flood
+ * Directed histories with many frames in flight: the mapper orders A (MTU 1500) to emit n Probe/Train frames with
+ * pairwise distinct mapper-chosen Ethernet sources towards B; all are delivered; B (MTU under test) is queried until
+ * its 'more' flag clears; every delivered frame must be reported with A as its real source.
+ * Enumerated: B's MTU in every residue mod 20 (+1492, 1500) x n in {capacity-1, capacity, +1, +2, 2*capacity+1}. */
+static int fl_path[2];
+static void fl_name(int ev, char *b, size_t cap) { snprintf(b, cap, "arg(%d)", ev); }
+static int fl_stage[2], fl_ns;
+static void flood_case(int mtuB, int n) {
+    vf_world_reset();
+    W.iface[0].mtu = 1500; W.iface[1].mtu = (size_t)mtuB;
+    uint8_t f[1600]; size_t len;
+    pev d = ev_discover(0, ST_M1, ST_M1, 0x1234, 1);
+    len = pev_build(&d, 0, f); deliver_to(0, f, len); len = pev_build(&d, 1, f); deliver_to(1, f, len);
+    static uint8_t flight[700][32]; int nfl = 0;
+    for (int base = 0; base < n; base += 100) {
+        int m = n - base > 100 ? 100 : n - base; static fb_desc dl[100];
+        for (int i = 0; i < m; i++) { int k = base + i; dl[i].type = (uint8_t)(k & 1); dl[i].pause = 0; uint8_t src[6] = {0x00, 0x50, 0x56, 0x40, (uint8_t)(k >> 8), (uint8_t)k}; memcpy(dl[i].src, src, 6); memcpy(dl[i].dst, addrB(), 6); }
+        len = fb_emit(f, addrA(), vf_station[ST_M1], addrA(), vf_station[ST_M1], 0, (uint16_t)(0x100 + base), (uint16_t)m, dl, m);
+        vf_trace_clear(); deliver_to(0, f, len);
+        for (uint32_t i = 0; i < W.ntrace && nfl < 700; i++) { const vf_trec *t = &W.trace[i]; if (t->kind == VF_T_SEND && t->iface == 0 && t->len == 32 && (tr_bytes(t)[17] == 0x03 || tr_bytes(t)[17] == 0x04) && !memcmp(tr_bytes(t), addrB(), 6)) memcpy(flight[nfl++], tr_bytes(t), 32); }
+    }
+    for (int i = 0; i < nfl; i++) { vf_trace_clear(); deliver_to(1, flight[i], 32); }
+    static uint8_t seen[700]; memset(seen, 0, sizeof seen); int more = 1, rounds = 0; unsigned total = 0;
+    while (more && rounds++ < 40) {
+        pev q = ev_query(0, ST_M1, ST_M1, (uint16_t)(0x200 + rounds)); len = pev_build(&q, 1, f); vf_trace_clear(); deliver_to(1, f, len);
+        const vf_trec *t = tr_send(0);
+        if (tr_sends() != 1 || t->len < 34 || tr_bytes(t)[17] != 0x07) { vf_violation("peer:query-not-answered", "B (MTU %d) did not answer Query #%d with one QueryResp", mtuB, rounds); return; }
+        unsigned field = (unsigned)((tr_bytes(t)[32] << 8) | tr_bytes(t)[33]), cnt = field & 0x3FFF; more = (field & 0x8000) != 0;
+        for (unsigned i = 0; i < cnt && 34 + 20 * (i + 1) <= t->len; i++) {
+            const uint8_t *dsc = tr_bytes(t) + 34 + 20 * i;
+            if (memcmp(dsc + 2, addrA(), 6) || memcmp(dsc + 14, addrB(), 6) || dsc[8] != 0x00 || dsc[11] != 0x40) continue;
+            int k = (dsc[12] << 8) | dsc[13]; if (k < 700) seen[k] = 1;
+        }
+        total += cnt;
+    }
+    int missing = 0, first = -1; for (int k = 0; k < nfl; k++) if (!seen[k]) { missing++; if (first < 0) first = k; }
+    vf_outcome(vf_hash64(&total, sizeof total, (uint64_t)mtuB));
+    if (A.verbose) printf("    B's MTU %d, %d frames emitted by A and delivered, %u descriptors reported in %d QueryResp frames, %d missing\n", mtuB, nfl, total, rounds, missing);
+    if (nfl != n) vf_violation("peer:emitter-count", "A was ordered to emit %d frames towards B and put %d on the wire", n, nfl);
+    if (missing) vf_violation("peer-does-not-report-emitted-probe:many-in-flight", "B's MTU %d: A emitted %d frames towards B, all were delivered, B was queried until 'more' cleared: %d of them (first: #%d) never appear in a QueryResp with A as real source", mtuB, nfl, missing, first);
+}
+static void fl_apply(int ev) { fl_stage[fl_ns++] = ev; if (fl_ns == 2) { fl_ns = 0; flood_case(fl_stage[0], fl_stage[1]); } }
+static void fl_root(void) { fl_ns = 0; }
+static e1_cfg flcfg = { .nev = 1 << 16, .ev_name = fl_name, .apply = fl_apply, .root_setup = fl_root };
+
 int main(int argc, char **argv) {
     const char *prop = "C06";
-    for (int i = 1; i + 1 < argc; i++) if (!strcmp(argv[i], "--mode") && !strcmp(argv[i + 1], "c10")) prop = "C10";
+    for (int i = 1; i + 1 < argc; i++) if (!strcmp(argv[i], "--mode") && !strncmp(argv[i + 1], "c10", 3)) prop = "C10";
     vf_parse_args(argc, argv, prop);
-    mode = !strcmp(A.mode, "c10") ? 10 : 6;
+    mode = !strncmp(A.mode, "c10", 3) ? 10 : 6;
+    if (!strcmp(A.mode, "c10flood")) {
+        vf_world_init(1500, 0, (uint8_t)A.fill);
+        if (A.replay) { A.verbose = 1; return e1_replay_file(&flcfg, A.replay); }
+        double t0f = vf_now_s(); uint64_t cases = 0;
+        static const int extra[2] = {1492, 1500};
+        for (int mi = 0; mi < 22; mi++) {
+            int mtuB = mi < 20 ? 576 + mi : extra[mi - 20]; int cap = (mtuB - 34) / 20;
+            int ns[5] = {cap - 1, cap, cap + 1, cap + 2, 2 * cap + 1};
+            for (int k = 0; k < 5; k++) { fl_path[0] = mtuB; fl_path[1] = ns[k]; e1_manual_path(&flcfg, fl_path, 2); flood_case(mtuB, ns[k]); cases++; }
+        }
+        R.evaluations = cases; R.states = cases; R.transitions = cases; R.exhaustive = 1; R.wall_s = vf_now_s() - t0f;
+        vf_sample("B's MTU 592, A ordered to emit 28 frames (capacity 27 + 1) towards B, all delivered, B queried until 'more' clears: all 28 must be reported with A as source");
+        vf_write_results();
+        return 0;
+    }
     vf_world_init(A.mtu, A.wifi, (uint8_t)A.fill);
     double t0 = vf_now_s();
     e1_stats st;
